@@ -2,6 +2,9 @@
 //! `vth <property> [--tier quick|thorough] [--seed N] --out DIR [--replay FILE] [extra…]`
 //! Drives the real versatiles-rs crates; writes cases.txt / impl.txt / stats.json into DIR.
 mod common;
+mod alloc_count;
+mod c19;
+mod c19_gen;
 mod indep_mvt;
 mod c04;
 mod c05;
@@ -16,14 +19,20 @@ mod c12;
 mod c13;
 mod c20;
 mod c06;
+mod c03;
 mod memsrc;
 mod tsrc;
 mod c02;
+mod c08;
+mod c09;
 mod indep_formats;
 mod c16;
 mod c01;
 
 use common::Args;
+
+#[global_allocator]
+static GLOBAL: alloc_count::Counting = alloc_count::Counting;
 use std::path::PathBuf;
 
 fn main() {
@@ -53,9 +62,14 @@ fn main() {
 		"C13" => c13::run(&args),
 		"C20" => c20::run(&args),
 		"C06" => c06::run(&args),
+		"C03" => c03::run(&args),
 		"C16" => c16::run(&args),
 		"C01" => c01::run(&args),
 		"C02" => c02::run(&args),
+		"C08" => c08::run(&args),
+		"C09" => c09::run(&args),
+		"C19" => c19::run(&args),
+		"C19child" => c19::child(&args),
 		_ => {
 			eprintln!("unknown property {prop}");
 			std::process::exit(2);
